@@ -7,8 +7,9 @@ package telemetry
 // descendant which calls Start again, as the real `go mod download` would.
 
 import (
-	"encoding/json"
 	"crypto/sha256"
+	"encoding/json"
+	"errors"
 	"fmt"
 	"io"
 	"log"
@@ -175,6 +176,7 @@ func scenarioStart(c *hlib.RunCtx) *hlib.Violation {
 	// environment.
 	// (configstore.Download is the real one; the `go` command is a process of the
 	// simulated process table that prints the directory of an empty configuration.)
+	downloadFails := t.Bool(1, 5)
 	s.RunFn = func(cmd *exec.Cmd) (bool, error) {
 		if len(cmd.Args) < 3 || cmd.Args[0] != "go" || cmd.Args[1] != "mod" || cmd.Args[2] != "download" {
 			return false, nil
@@ -184,6 +186,14 @@ func scenarioStart(c *hlib.RunCtx) *hlib.Violation {
 		}
 		if err := simrt.CmdWait(cmd); err != nil {
 			return true, err
+		}
+		if downloadFails {
+			// no network, the module proxy is down: the upload fails, the token stays
+			if cmd.Stdout != nil {
+				cmd.Stdout.Write([]byte(`{"Error":"module lookup disabled by GOPROXY=off"}`))
+			}
+			s.Probe("config-download-fails")
+			return true, errors.New("exit status 1")
 		}
 		mod := filepath.Join(c.Dir, "modcache", "config@v0.1.0")
 		os.MkdirAll(mod, 0777)
@@ -386,7 +396,7 @@ func scenarioStart(c *hlib.RunCtx) *hlib.Violation {
 			if family == "within24h" {
 				// the whole run stays inside one token period, but may use all of it
 				if t.Bool(1, 3) && within > time.Minute {
-					d = time.Duration(t.Draw(int(within / time.Minute))) * time.Minute
+					d = time.Duration(t.Draw(int(within/time.Minute))) * time.Minute
 				}
 				if d > within {
 					d = within
